@@ -98,6 +98,12 @@ LAWS = [
     ("k * x if 0.5 <= x < y else 2.0 * k * y + 1.0", "must"),
     ("k if y > x >= 0.5 else 3.0 * k + x", "must"),
     ("k * x if 0.25 < x <= y else -k", "must"),
+    # other ways of declaring the parameters (positional-only, defaults, annotations)
+    ("#sig: x, /, y, k :: k * x / (y + 1.0)", "may"),
+    ("#sig: x, y, /, k :: k * x - y / 4", "may"),
+    ("#sig: x, y, k, / :: k * x / (y + 2.0)", "may"),
+    ("#sig: x, y, k=2.0 :: k * x / (y + 3.0)", "may"),
+    ("#sig: x: float, y: float, k: float = 1.0 :: k * (x - y)", "may"),
     ("k * math.sqrt((x - y) ** 2)", "may"),
     ("k * ((x - y) ** 2) ** 0.25 + x", "may"),
     # two-argument functions whose MathML namesakes mean something else (rem is the floored modulo, ...)
@@ -175,7 +181,10 @@ def neg_half(k):
 def module_source():
     parts = [HELPERS]
     for i, (e, _c) in enumerate(LAWS):
-        parts.append(f"def law_{i}(x, y, k):\n    return {e}\n")
+        sig = "x, y, k"
+        if e.startswith("#sig: "):  # a law may bring its own way of declaring the three parameters
+            sig, e = e[len("#sig: "):].split(" :: ")
+        parts.append(f"def law_{i}({sig}):\n    return {e}\n")
     for j, (b, _c) in enumerate(BODIES):
         parts.append(f"def law_{len(LAWS) + j}(x, y, k):\n    {b}\n")
     return "\n\n".join(parts)
